@@ -89,6 +89,9 @@ ReqInit(c) ==
     obs      |-> ZeroCnt,      \* counters observed
     bad      |-> {} ]      \* names of the violated clauses
 
+\* error classes of the harness that the Dialer re-establishes the task for (system call error other than permission,
+\* link not ready, link change); every other class ends the task
+RecClasses == {"sys", "lnr", "link"}
 Flag(m, s) == [m EXCEPT !.bad = @ \cup {s}]
 Up(m) == m.k # 0
 Live(m) == Up(m) /\ m.cancelAt = -1 /\ m.faultAt = -1
@@ -146,7 +149,7 @@ OnIn(m, e) ==
        ELSE [m0 EXCEPT !.nTO = @ + 1, !.resumeAt = e.t + m0.nTO * BackoffUnit]
   ELSE IF e.kind = "readerr" THEN
        [m0 EXCEPT !.faultAt = IF @ = -1 /\ m0.cancelAt = -1 THEN e.t ELSE @,
-                  !.fcls = @ \cup {IF e.cls = "sys" THEN "rec" ELSE "fatal"}]
+                  !.fcls = @ \cup {IF e.cls \in RecClasses THEN "rec" ELSE "fatal"}]
   ELSE IF e.hl # 255 THEN
        \* C09: counted invalid, nothing else may follow from it; does not touch the retry budget
        [m0 EXCEPT !.exp = Bump(@, "inv"), !.invSrcs = @ \cup {e.src}]
@@ -167,7 +170,7 @@ OnFwd(m, e) ==
        IF ~e.ok
        THEN \* no RA can be generated: the transmission (or comparison) this read belongs to fails, which is a fault of the
             \* session like a failed write (and is counted as a transmit error when it was a scheduled transmission)
-            [m1 EXCEPT !.fcls = @ \cup {IF e.cls = "sys" THEN "rec" ELSE "fatal"}, !.fwdFailed = TRUE,
+            [m1 EXCEPT !.fcls = @ \cup {IF e.cls \in RecClasses THEN "rec" ELSE "fatal"}, !.fwdFailed = TRUE,
                        !.finalExcused = @ \/ m1.cancelAt # -1,      \* the final RA could not be built (outside C08's quantifier)
                        !.faultAt = IF @ = -1 /\ m1.cancelAt = -1 /\ Up(m1) THEN e.t ELSE @]
        ELSE
@@ -274,7 +277,7 @@ OnWRet(m, e) ==
                                ELSE IF ~e.ok THEN Bump(@, "txerr")
                                ELSE IF mc THEN Bump(@, "m") ELSE Bump(@, "u"),
                        !.faultAt = IF ~e.ok /\ ~final /\ @ = -1 /\ m1.cancelAt = -1 THEN e.t ELSE @,
-                       !.fcls = IF e.ok \/ final THEN @ ELSE @ \cup {IF e.cls = "sys" THEN "rec" ELSE "fatal"}]
+                       !.fcls = IF e.ok \/ final THEN @ ELSE @ \cup {IF e.cls \in RecClasses THEN "rec" ELSE "fatal"}]
   IN m2
 
 \* a counter update adds e.v thousandths (1000 for the increment by one that every counted event is worth)
@@ -309,9 +312,12 @@ OnQuiet(m, e) ==
       m4 == IF m3.cancelAt = -1 /\ m3.nMisLog # m3.nFalse THEN Flag(m3, "c04-misconfiguration-log-lines-differ-from-generations") ELSE m3
       \* C09 / C04: our own RA is generated (forwarding read) only for a transmission and for the comparison with a valid
       \* received RA; anything else - an invalid message in particular - must not set a generation off
-      m5 == IF m4.cancelAt = -1 /\ ~m4.readFail /\ m4.nRead # m4.nUse
+      \* (while the driver holds a call open - a forwarding read at its gate - a generation may be half done: the account
+      \* is carried over to the next quiescent point without a hold)
+      m5 == IF m4.nHeld = 0 /\ m4.cancelAt = -1 /\ ~m4.readFail /\ m4.nRead # m4.nUse
             THEN Flag(m4, "c04-c09-ra-generated-without-a-transmission-or-a-valid-ra") ELSE m4
-  IN [m5 EXCEPT !.pend = <<>>, !.nFalse = 0, !.nMisLog = 0, !.nRead = 0, !.nUse = 0, !.readFail = FALSE]       \* nobody is between a forwarding read and its transmission
+  IN IF m4.nHeld > 0 THEN [m5 EXCEPT !.pend = <<>>, !.nFalse = 0, !.nMisLog = 0]
+     ELSE [m5 EXCEPT !.pend = <<>>, !.nFalse = 0, !.nMisLog = 0, !.nRead = 0, !.nUse = 0, !.readFail = FALSE]       \* nobody is between a forwarding read and its transmission
 
 \* The driver is about to let virtual time pass (only ever at a quiescent point).
 OnAdvance(m, e) ==
